@@ -836,6 +836,16 @@ static void c18_acf(vr_rng *r)
         VR_CNT("acf_scale_relations");
         free(acf2); free(pacf2); cmb_dataset_destroy(d2);
     }
+    /* a unit in which the variance is just representable (samples around 1e-155, their squares at the bottom of the normal range): the
+     * coefficients are ratios and stay what they are, to the precision the squares still have */
+    if (vr_nviol == 0) {
+        double a = ldexp(1.0, -514 - (int)vr_below(r, 5));
+        struct cmb_dataset *d2 = cmb_dataset_create(); for (size_t k = 0; k < n; k++) cmb_dataset_add(d2, a * x[k]);
+        double *acf2 = calloc(lags + 2, sizeof *acf2); cmb_dataset_ACF(d2, lags, acf2);
+        for (unsigned l = 0; l <= lags; l++) if (!(fabs(acf2[l] - acf[l]) <= 1e-5 * (1 + fabs(acf[l])))) { vr_violation("C18/acf-scale/tiny-unit", "ACF[%u] changed from %.10g to %.10g under x -> 2^%d * x (n=%zu)", l, acf[l], acf2[l], (int)log2(a), n); break; }
+        VR_CNT("acf_scale_relations_in_a_tiny_unit");
+        free(acf2); cmb_dataset_destroy(d2);
+    }
     /* far shifts: data at a huge distance from zero relative to its spread (counters, timestamps). The samples are made integer
      * valued first so that x + c is exact and the shifted data are the same data; c up to 1e10 keeps the mean's rounding error far
      * below the tolerance */
